@@ -2,7 +2,8 @@
 
 A month pattern is a dict
   {"dir": "none"|"c"|"h"|"both", "cday": k, "hday": k, "shape": "1h"|"6h"|"30h", "base": 0|0.2, "pc": kW, "ph": kW}
-with days given as one of "first","second","mid","penult","last".
+with days given as one of "first","second","mid","penult","last"; optional "hh" / "ch": hour of the day (0..23) at which the heating /
+cooling peak starts (default 2 / 10).
 """
 from __future__ import annotations
 
@@ -75,10 +76,10 @@ def build_profile(patterns) -> list:
         if p["dir"] in ("h", "both"):
             d = day_index(p["hday"], m0)
             hl = ln if p["dir"] == "h" else min(ln, 6)
-            _put(loads, s + 24 * d + 2, hl, p["ph"] * 1000.0)
+            _put(loads, s + 24 * d + p.get("hh", 2), hl, p["ph"] * 1000.0)
         if p["dir"] in ("c", "both"):
             d = day_index(p["cday"], m0)
-            _put(loads, s + 24 * d + 10, ln, -p["pc"] * 1000.0)
+            _put(loads, s + 24 * d + p.get("ch", 10), ln, -p["pc"] * 1000.0)
     return loads
 
 
